@@ -1,7 +1,7 @@
 """C10: bitwise AND / XOR components."""
 import json
 from ..common import *
-from .. import proofgate, composer, widgets
+from .. import proofgate, composer, widgets, rootfind
 
 THEOREMS = ["C10_logic_layout", "C10_logic_table", "C10_logic_rows_sound", "C10_logic_sound"]
 FIRST = 6
@@ -9,6 +9,64 @@ FIRST = 6
 def nw(nb): return nb // 2 if nb % 2 == 0 else (nb - 1) // 2 + 3
 def canon_nw(N): return 1 + nw(255 - N) + 5 + nw(N)
 def split_nw(N): return 1 + nw(255 - N) + 1 + canon_nw(N)
+
+def logic_residuals(la, lb, ld, w, qc):
+    """the five residuals of one logic row (Gate.v logic_c0..c4), over ints or rootfind.P"""
+    dl = lambda f: f * (f - 1) * (f - 2) * (f - 3)
+    F_ = w * (w * (4 * w - 18 * (la + lb) + 81) + 18 * (la * la + lb * lb) - 81 * (la + lb) + 83)
+    E = 3 * (la + lb + ld) - 2 * F_
+    B = qc * (9 * ld - 3 * (la + lb))
+    return [dl(la), dl(lb), dl(ld), w - la * lb, B + E]
+
+def cancelling_logic_cases(rng, quick):
+    """assignments on the honest 3-pair layout where two residuals of ONE row are non-zero and cancel:
+    (product, table) with a wrong output quad, (d quad, table) and (d quad, product) with a non-quad output digit"""
+    P_ = 3; i = 1; base = FIRST + 2
+    cases = []
+    for op in ("land", "lxor"):
+        qc = 1 if op == "land" else R - 1
+        f = (lambda x, y: x & y) if op == "land" else (lambda x, y: x ^ y)
+        tries = 0
+        while len([c for c in cases if c[1] == op]) < (3 if quick else 9) and tries < 60:
+            tries += 1
+            a, b = rng.randrange(1 << 6), rng.randrange(1 << 6)
+            la, lb = (a >> 2) & 3, (b >> 2) & 3
+            ld = f(la, lb)
+            kind = tries % 3
+            T = rootfind.T
+            if kind == 0:       # wrong quad d', product wire a root of c3 + c4
+                d2 = rng.choice([q for q in range(4) if q != ld])
+                res = logic_residuals(la, lb, d2, T, qc)
+                cand = [(d2, w) for w in rootfind.roots((res[3] + res[4]).c) if w != la * lb]
+                tag = "product and table residuals cancel (wrong output quad, solved product wire)"
+            elif kind == 1:     # honest product, non-quad output digit: c2 + c4 = 0
+                res = logic_residuals(la, lb, T, la * lb, qc)
+                cand = [(d, la * lb) for d in rootfind.roots((res[2] + res[4]).c) if d not in (0, 1, 2, 3)]
+                tag = "output-quad and table residuals cancel (non-quad output digit)"
+            else:               # c2 + c3 = 0 with table = 0: w = la*lb - delta(ld)
+                dl = T * (T - 1) * (T - 2) * (T - 3)
+                wv = la * lb - dl
+                res = logic_residuals(la, lb, T, wv, qc)
+                cand = []
+                for d in rootfind.roots(res[4].c):
+                    if d in (0, 1, 2, 3): continue
+                    cand.append((d, (la * lb - d * (d - 1) * (d - 2) * (d - 3)) % R))
+                tag = "output-quad and product residuals cancel (non-quad output digit, table satisfied)"
+            if not cand: continue
+            d2, wstar = cand[0]
+            chk = logic_residuals(la, lb, d2, wstar, qc)
+            nz = [k for k in range(5) if chk[k] % R]
+            if len(nz) != 2 or sum(chk[k] for k in nz) % R: continue
+            over = {base + 4 * i + 2: wstar % R}
+            delta_d = (d2 - ld) % R
+            # honest output accumulators: o_j = 4 o_{j-1} + quad_j ; shift every o_j, j >= i, by delta * 4^(j-i)
+            o = 0; accs = []
+            for j in range(P_):
+                o = 4 * o + f((a >> (2 * (P_ - 1 - j))) & 3, (b >> (2 * (P_ - 1 - j))) & 3); accs.append(o)
+            for j in range(i, P_):
+                over[base + 4 * j + 3] = (accs[j] + delta_d * pow(4, j - i, R)) % R
+            cases.append((f"lm{len(cases)}", op, ["w " + hx(a), "w " + hx(b), f"{op} {P_} $0 $1"], over, tag, tuple(nz)))
+    return cases
 
 def run(ck):
     quick = ck.tier == "quick"
@@ -81,6 +139,24 @@ def run(ck):
                     nm = name + "_alias"
                     jobs.append((nm, snap, w2)); expect[nm] = False; info[nm] = ("alias a+r", op, P)
                     ck.count(("alias", op, P), kind="template: accumulators of a+r")
+    # two residuals of one logic row that cancel: satisfiable only if the widget gives them the same weight
+    lm = cancelling_logic_cases(rng, quick)
+    lm_lines = []
+    for cid, op, body, over, tag, nz in lm:
+        lm_lines += ["prog " + cid] + body + [f"setw {k} {hx(v)}" for k, v in sorted(over.items())] + ["snap"]
+        ck.count(("lm", op, tag), kind="template: " + tag)
+    if lm:
+        lm_impl, _ = composer.run_both(ck, "\n".join(lm_lines) + "\n", "c10_lm")
+        from .. import protocol
+        verd = protocol.real_prover_verdicts([(cid, body, over) for cid, op, body, over, tag, nz in lm], "c10_lm_rp", pp_log=8)
+        for cid, op, body, over, tag, nz in lm:
+            progs[cid] = body + [f"setw {k} {hx(v)}" for k, v in sorted(over.items())]
+            jobs.append((cid, Snapshot(lm_impl[cid]), None)); expect[cid] = False; info[cid] = (tag, op, 3)
+            if verd.get(cid) == "ACCEPTED":
+                ck.violation(f"logic soundness ({op}): {tag}: the REAL prover produced a proof and the verifier accepted it; the returned value is not the bitwise result",
+                             {"failing_input_found": True, "program": progs[cid], "residuals_cancelling": list(nz)}, key="accepted:merged:" + op)
+            elif verd.get(cid, "").startswith("ERROR"):
+                raise BuildError("C10 real-prover second opinion failed: " + verd[cid])
     res = composer.model_sat(jobs, "c10_sat")
     for nm in expect:
         got = res.get(nm, "?") is None
